@@ -388,7 +388,7 @@ pub fn run(tier: Tier) -> i32 {
     ctx.level = "fault_enumeration";
     ctx.assume("abandon instants are enumerated at packet-event granularity of a reference run of the same shape (thinned above 64 points); between two fabric events nothing observable changes for the peer");
     ctx.assume("'promptly' is checked as: dropped within 1 virtual second of the abandon");
-    ctx.run_part(Sweeps, tier.pick(150, 4_000));
-    ctx.run_part(Histories, tier.pick(400, 10_000));
+    ctx.run_part(Sweeps, tier.pick(150, 15_000));
+    ctx.run_part(Histories, tier.pick(400, 30_000));
     ctx.finish()
 }
